@@ -4,7 +4,7 @@ MC_SIMCORE_SHARED = {"Orders": '{"o1", "o2"}', "TradeOf": "<- TradeOfDef", "Size
 MC_SIMCORE_SEP = dict(MC_SIMCORE_SHARED, TradeOf="<- TradeOfSep")
 MC_SIMCORE_DEEP = dict(MC_SIMCORE_SEP, MaxClock="6", MaxReqs="5")
 
-WITNESSES = ["Reach_CompleteOrder", "Reach_Replacement", "Reach_TradeComplete"]
+WITNESSES = ["Reach_CompleteOrder", "Reach_Replacement", "Reach_TradeComplete", "Reach_VoidedMatched"]
 
 
 def simcore_designs(invariants, properties=()):
@@ -26,6 +26,19 @@ ASSUME_SIM = [
     "simulation mode only here; live mode is decided by the LiveRun checks",
     "scenarios bounded: <= 2 markets, <= 3 runners, <= 17 updates, <= 8 orders per strategy, <= 2 strategies",
     "TLC 1.8, the recorder's projection (harness/simdrv.py) and betfairlightweight's stream cache are trusted",
+]
+
+MATCH_PLACE_Q = {"Mode": '"place"', "Prices": "{190, 200, 210}", "Sizes": "{100, 200, 300}", "Deltas": "{0, 400}", "MaxOrders": "2"}
+MATCH_PLACE_T = dict(MATCH_PLACE_Q, Deltas="{0, 200, 400}")
+MATCH_GROUP_Q = {"Mode": '"group"', "Prices": "{190, 200, 210}", "Sizes": "{100, 200, 300}", "Deltas": "{0, 200, 400}", "MaxOrders": "2"}
+MATCH_GROUP_T = dict(MATCH_GROUP_Q, MaxOrders="3")
+C05_INV = ["Inv_C05_FillWithinLimit", "Inv_C05_LevelNotOverdrawn", "Inv_C05_FokAllOrNothing", "Inv_C05_BpeLapse", "Inv_C04_Place"]
+C06_INV_PLACE = ["Inv_C06_QueueCaptured", "Inv_C06_LoneExact"]
+
+MATCH_PROFILES = [
+    {"p_trade": 0.8, "p_fok": 0.35, "p_bpe_off": 0.3, "n_strategies": (1, 2), "p_cancel": 0.15, "p_replace": 0.2},
+    {"p_trade": 0.9, "p_iso_off": 0.5, "n_strategies": (2, 2), "max_orders": 8, "p_action": 0.7, "p_cancel": 0.1, "p_sp_order": 0.05, "n_runners": (2, 2), "center": (98, 104)},
+    {"p_full_match": 0.3, "p_fok": 0.3, "sizes": [2.0, 0.02, 2.36, 12.5, 50.0], "p_mver": 0.3},
 ]
 
 SIM = {
@@ -52,6 +65,50 @@ SIM = {
         "n_quick": 200, "n_thorough": 5000,
         "rule": "as C03; runner contexts recounted from the orders at the end of every update, limits checked at every accepted placement",
         "assumptions": ASSUME_SIM,
+    },
+    "C05": {
+        "props": ["C05", "M"],
+        "designs": [
+            {"module": "MC_SimMatch", "constants": MATCH_PLACE_Q, "invariants": C05_INV, "must_reach": ["Reach_FokFilled", "Reach_Resting"]},
+            {"module": "MC_SimMatch", "constants": MATCH_PLACE_T, "invariants": C05_INV, "tier": "thorough"},
+        ],
+        "profiles": MATCH_PROFILES,
+        "n_quick": 210, "n_thorough": 6000,
+        "rule": "design: every book (<=2 levels/side over 3 prices x 3 sizes) x every limit order flavour; real code: seeded random books/orders through the real stack, each placement's fragments judged against the book the placement executed against",
+        "assumptions": ASSUME_SIM + ["simulated_full_match is outside the level-availability clause (fragments with time 0 are excluded)", "a limit order with MARKET_ON_CLOSE persistence filled at the starting price is no longer a limit order at that time (exempt from the limit clause)"],
+    },
+    "C06": {
+        "props": ["C06", "M"],
+        "designs": [
+            {"module": "MC_SimMatch", "constants": MATCH_PLACE_Q, "invariants": C06_INV_PLACE, "must_reach": ["Reach_Resting"]},
+            {"module": "MC_SimMatch", "constants": MATCH_GROUP_Q, "invariants": ["Inv_C06_Group"], "must_reach": ["Reach_GroupTwoFilled"]},
+            {"module": "MC_SimMatch", "constants": MATCH_GROUP_T, "invariants": ["Inv_C06_Group"], "tier": "thorough", "timeout": 1500},
+        ],
+        "profiles": MATCH_PROFILES,
+        "n_quick": 210, "n_thorough": 6000,
+        "rule": "design: all traded ladders over 3 prices x {0,2,4} for two rounds on a lone order after every placement and on every group of <=2 (thorough: 3) resting orders; real code: fills judged per update against a ledger of traded volume rebuilt from the raw scenario lines",
+        "assumptions": ASSUME_SIM + ["simulation_available_prices False", "traded increments are multiples of 0.02 so that the halving is exact in pence"],
+    },
+    "C07": {
+        "props": ["C07"],
+        "designs": simcore_designs(["Inv_C07_NoDueLeft"]),
+        "profiles": [{"gaps": [1, 60, 119, 120, 121, 149, 150, 151, 169, 170, 171, 279, 280, 281, 1000, 1119, 1120, 1121, 5000], "p_inplay": 0.25, "bet_delays": [1, 2, 5, 12], "p_action": 0.7, "p_cancel": 0.35},
+                     {"n_markets": (2, 2), "event_processing": True, "p_inplay": 0.2, "p_action": 0.7},
+                     {"latencies": [{"place_latency": 0.001, "cancel_latency": 0.001, "update_latency": 0.001, "replace_latency": 0.001}, {"place_latency": 1.0, "cancel_latency": 0.5, "update_latency": 2.0, "replace_latency": 0.0}], "gaps": [1, 2, 500, 999, 1000, 1001, 2000, 2001]}],
+        "n_quick": 180, "n_thorough": 5000,
+        "rule": "publish-time gaps drawn around each configured latency (L-1, L, L+1 ms) and bet delay; every executed package must be due and none due may survive its market's update; delay charged = latency(kind) + bet delay at request time",
+        "assumptions": ASSUME_SIM,
+    },
+    "C09": {
+        "props": ["C09", "M"],
+        "designs": simcore_designs(["Inv_C09_RemovedComplete", "Inv_C04_Conserved"]) ,
+        "profiles": [{"p_removal": 0.15, "p_sp_order": 0.25, "p_moc_pers": 0.2, "p_inplay": 0.15, "p_partial_cancel": 0.6, "p_cancel": 0.4},
+                     {"p_removal": 0.12, "n_markets": (2, 2), "event_processing": True},
+                     {"p_removal": 0.12, "n_markets": (2, 2)}],
+        "extra": "two_market_removal",
+        "n_quick": 180, "n_thorough": 5000,
+        "rule": "removals with factors None/0/below/at/above 2.5 up to 99 at random points of random histories (orders in every state), plus the same selection+factor removed in two markets of one run (sequential and event-grouped)",
+        "assumptions": ASSUME_SIM + ["price reduction checked within half a cent of p*(1-af/100) (floating-point rounding of ties is not decided)"],
     },
     "C15": {
         "props": ["C15"],
